@@ -1100,3 +1100,46 @@ Proof.
   - exact (add_wf_fmt A B C WA WB H).
   - exact (sub_wf_fmt A B C WA WB H).
 Qed.
+
+(* ---------------------------------------------------------------- the repaired variants are sound at full strength *)
+Lemma mul_gen_as_coded A B : af_mul_gen false false A B = af_mul A B.
+Proof. reflexivity. Qed.
+
+Theorem neg_fx_sound A x : af_wf A -> gamma A x -> gamma (af_neg_fx A) (fl_neg x).
+Proof.
+  intros Hw Hg. destruct x as [x|s|s]; simpl in *.
+  - destruct Hg as [Hx Hg]. split; [exact Hx|].
+    destruct (Z.eqb_spec (rc x) 0) as [Z0|Z0]; [reflexivity|].
+    destruct Hg as (Hr & Hp & Hn). rewrite R2R_neg_mk. split; [|split]; simpl.
+    + apply repr_opp. exact Hr.
+    + apply le_bnd_neg. exact Hn.
+    + apply ge_bnd_neg. exact Hp.
+  - destruct s; simpl; assumption.
+  - assumption.
+Qed.
+
+Theorem abs_fx_sound A x : af_wf A -> gamma A x -> gamma (af_abs_fx A) (fl_abs x).
+Proof.
+  intros Hw Hg. pose proof Hw as (_ & _ & Wp & Wn & _ & _).
+  assert (Wnn : bnd_wf (bneg (a_neg A))) by (destruct (a_neg A); simpl in *; auto).
+  destruct x as [x|s|s]; simpl in *.
+  - destruct Hg as [Hx Hg]. split; [exact Hx|].
+    destruct (Z.eqb_spec (rc x) 0) as [Z0|Z0]; [discriminate|].
+    destruct Hg as (Hr & Hp & Hn). rewrite R2R_abs_mk by assumption. split; [|split]; simpl.
+    + apply repr_abs. exact Hr.
+    + unfold Rabs. destruct (Rcase_abs (R2R x)).
+      * apply le_bmax_r; auto. apply le_bnd_neg. exact Hn.
+      * apply le_bmax_l; auto.
+    + unfold R2R, rf_zero; simpl. rewrite F2R_0. apply Rabs_pos.
+  - destruct s; rewrite Hg; auto using orb_true_r.
+  - assumption.
+Qed.
+
+Theorem le_fx_sound A B v : af_wf A -> af_wf B -> af_le_fx A B = true -> gamma A v -> gamma B v.
+Proof.
+  intros WA WB H. apply le_sound_partial; auto.
+  - unfold le_ok. unfold af_le_fx in H. destruct (a_prec B) as [q| |]; auto. destruct (a_exp B); auto.
+    destruct (ext_gt (a_prec A) (EFin q)); [discriminate|reflexivity].
+  - unfold af_le_fx in H. destruct (a_prec B) as [q| |]; auto. destruct (a_exp B); auto;
+      destruct (ext_gt (a_prec A) (EFin q)); try discriminate; exact H.
+Qed.
